@@ -1543,3 +1543,54 @@ Proof.
     cbn [bind] in H. destruct (ll_term _ _); [exact (Hsend _ _ H)|vm_compute in H; discriminate].
   - split; intros H; inversion H; reflexivity.
 Qed.
+
+(* a new leader starts counting itself from what it has persisted *)
+Theorem become_leader_self_matched r r' pr :
+  become_leader r = Ok r' -> get_pr r (r_id r) = Some pr ->
+  exists pr', get_pr r' (r_id r) = Some pr' /\ matched pr' = persisted (r_log r).
+Proof.
+  unfold become_leader. intros H Hg.
+  destruct (role_eqb (r_state r) Follower); [discriminate|].
+  inv_bind H. destruct (reset_self_matched _ _ _ _ Hx Hg) as (pr0 & G0 & M0 & I0 & L0).
+  change (get_pr (x <| r_leader_id := r_id x |> <| r_state := Leader |> <| r_uncommitted_size := 0 |>
+                    <| r_last_log_tail_index := last_index (r_log (x <| r_leader_id := r_id x |> <| r_state := Leader |>)) |>)
+                 (r_id (x <| r_leader_id := r_id x |> <| r_state := Leader |> <| r_uncommitted_size := 0 |>
+                    <| r_last_log_tail_index := last_index (r_log (x <| r_leader_id := r_id x |> <| r_state := Leader |>)) |>)))
+    with (get_pr x (r_id x)) in H.
+  rewrite G0 in H. inv_bind H. destruct x0 as [r6 ok]. destruct ok; [|discriminate]. inversion H; subst r6.
+  apply append_entry_prs in Hx0. exists (become_replicate pr0).
+  split; [|exact M0]. unfold get_pr. rewrite Hx0. cbn. rewrite <- I0. apply pget_pput_same.
+Qed.
+
+(* ================================================================== *)
+(* definitions spelled out; samples                                     *)
+(* ================================================================== *)
+Lemma grows_def l l' :
+  grows l l' <->
+  ll_base (abs l') = ll_base (abs l) /\ ll_bterm (abs l') = ll_bterm (abs l)
+  /\ exists suffix, ll_ents (abs l') = ll_ents (abs l) ++ suffix.
+Proof. reflexivity. Qed.
+
+Lemma crel_def l l' :
+  crel l l' <->
+  committed l <= committed l' /\ ll_base (abs l) <= ll_base (abs l')
+  /\ forall i, i <= committed l -> ll_base (abs l') < i -> ll_get (abs l') i = ll_get (abs l) i.
+Proof. reflexivity. Qed.
+
+Lemma rcrel_def r r' : rcrel r r' <-> crel (r_log r) (r_log r').
+Proof. reflexivity. Qed.
+
+Module C04Samples.
+  Import Samples.
+  (* the single-voter leader of Samples: after its Ready was written and commit_ready ran,
+     the persistence notice raises its own matched index from 0 to 1 = persisted, and with
+     it the commit index (quorum index of the matched indexes) from 0 to 1 *)
+  Definition nmid : rawnode. Proof. from_ok (commit_ready node2 (snd ready1)). Defined.
+  Example ex_persist_commits :
+    exists r' pr pr',
+      on_persist_entries (rn_raft nmid) 1 1 = Ok r'
+      /\ get_pr (rn_raft nmid) 1 = Some pr /\ matched pr = 0 /\ committed (nlog nmid) = 0
+      /\ get_pr r' 1 = Some pr' /\ matched pr' = 1 /\ persisted (r_log r') = 1
+      /\ committed (r_log r') = 1 /\ r_term r' = 1.
+  Proof. eexists. eexists. eexists. vm_compute. repeat split; reflexivity. Qed.
+End C04Samples.
